@@ -1289,3 +1289,234 @@ Proof.
       unfold check_children. destruct cont; try exact Hl. contradiction. }
     rewrite Hchk. reflexivity.
 Qed.
+
+(* ------------------------------------------------------------------------------------------ *)
+(** * The model satisfies the per-step predicate of Spec/PC10.v *)
+
+Lemma reach_sound : forall s f a b, Links s -> reach_b s f a b = true -> path s a b.
+Proof.
+  intros s f. induction f as [|f IH]; intros a b L H; cbn [reach_b] in H; [discriminate|].
+  apply existsb_exists in H. destruct H as [k [Hk H]]. apply (l_sym s L) in Hk.
+  apply orb_true_iff in H. destruct H as [H|H].
+  - apply Nat.eqb_eq in H. subst. apply path1. exact Hk.
+  - eapply path_cons; [exact Hk | apply IH; assumption].
+Qed.
+
+Lemma pathn_uncons : forall s k a b, pathn s k a b ->
+  (k = 1 /\ In a (parents s b)) \/ (exists k' m, k = S k' /\ In a (parents s m) /\ pathn s k' m b).
+Proof.
+  induction 1 as [a b H | k a p b Hp IH H].
+  - left. split; [reflexivity | exact H].
+  - right. destruct IH as [[-> Ha] | [k' [m [-> [Ha Hm]]]]].
+    + exists 1, p. split; [reflexivity|]. split; [exact Ha | apply pathn1; exact H].
+    + exists (S k'), m. split; [reflexivity|]. split; [exact Ha | eapply pathnS; eassumption].
+Qed.
+
+Lemma reach_complete : forall s f k a b, Links s -> pathn s k a b -> k <= f -> reach_b s f a b = true.
+Proof.
+  intros s f. induction f as [|f IH]; intros k a b L H Hk.
+  - inversion H; subst; lia.
+  - cbn [reach_b]. apply existsb_exists. apply pathn_uncons in H.
+    destruct H as [[-> Ha] | [k' [m [-> [Ha Hm]]]]].
+    + exists b. split; [apply (l_sym s L); exact Ha | rewrite Nat.eqb_refl; reflexivity].
+    + exists m. split; [apply (l_sym s L); exact Ha|]. apply orb_true_iff. right. eapply IH; [exact L | exact Hm | lia].
+Qed.
+
+Theorem reach_spec : forall s a b, DWF s -> (reach_b s (dsize s) a b = true <-> path s a b).
+Proof.
+  intros s a b [L [r R]]. split.
+  - apply reach_sound. exact L.
+  - intros H. apply path_pathn in H. destruct H as [k H].
+    eapply reach_complete; [exact L | exact H |]. pose proof (pathn_bound s r k a b L R H). lia.
+Qed.
+
+Lemma closes_loop_false : forall s p c, DWF s -> p <> c -> ~ path s c p -> closes_loop_b s p c = false.
+Proof.
+  intros s p c W Hne Hp. unfold closes_loop_b. apply orb_false_iff. split; [apply Nat.eqb_neq; exact Hne|].
+  apply not_true_is_false. intro H. apply Hp. apply reach_spec; assumption.
+Qed.
+
+Lemma all_pairs_true : forall n f, (forall p c, p < n -> c < n -> f p c = true) -> all_pairs n f = true.
+Proof.
+  intros n f H. unfold all_pairs, dids. apply forallb_forall. intros p Hp. apply forallb_forall. intros c Hc.
+  apply in_seq in Hp. apply in_seq in Hc. apply H; lia.
+Qed.
+
+Lemma edge_b_iff : forall s p c, Links s -> (edge_b s p c = true <-> In p (parents s c)).
+Proof. intros s p c L. unfold edge_b. rewrite memb_In. symmetry. apply (l_sym s L). Qed.
+
+Lemma pair_mem_In : forall p c l, pair_mem p c l = true <-> In (p, c) l.
+Proof.
+  intros p c l. unfold pair_mem. rewrite existsb_exists. split.
+  - intros [[a b] [Hin H]]. cbn [fst snd] in H. apply andb_true_iff in H. destruct H as [H1 H2].
+    apply Nat.eqb_eq in H1. apply Nat.eqb_eq in H2. subst. exact Hin.
+  - intros H. exists (p, c). split; [exact H|]. cbn [fst snd]. rewrite !Nat.eqb_refl. reflexivity.
+Qed.
+
+Lemma requested_asks : forall s o q x, is_assignment o = true -> (In (q, x) (requested s o) <-> asks s o q x).
+Proof.
+  intros s o q x Ha. destruct o as [c cont args ft | p cont args ft | p | p nm | p c ft | c p ft | nm pa ca ftp ftc];
+    try discriminate; cbn [requested asks].
+  - rewrite in_map_iff. split.
+    + intros [y [E Hy]]. injection E as <- <-. split; [reflexivity | exact Hy].
+    + intros [-> Hq]. exists q. split; [reflexivity | exact Hq].
+  - rewrite in_map_iff. split.
+    + intros [y [E Hy]]. injection E as <- <-. split; [reflexivity | exact Hy].
+    + intros [-> Hx]. exists x. split; [reflexivity | exact Hx].
+  - cbn [In]. split.
+    + intros [E|[]]. injection E as <- <-. split; reflexivity.
+    + intros [-> ->]. left. reflexivity.
+  - cbn [In]. split.
+    + intros [E|[]]. injection E as <- <-. split; reflexivity.
+    + intros [-> ->]. left. reflexivity.
+  - rewrite in_app_iff, !in_map_iff. split.
+    + intros [[y [E Hy]]|[y [E Hy]]]; injection E as <- <-; [left | right]; (split; [reflexivity | exact Hy]).
+    + intros [[-> Hq]|[-> Hx]]; [left; exists q | right; exists x]; (split; [reflexivity | assumption]).
+Qed.
+
+Lemma eqb_of_iff : forall b1 b2 : bool, (b1 = true <-> b2 = true) -> Bool.eqb b1 b2 = true.
+Proof.
+  intros [] [] [H1 H2]; try reflexivity; cbn.
+  - apply H1. reflexivity.
+  - apply H2. reflexivity.
+Qed.
+
+Lemma set_parents_ok_check : forall cfg ft s c cont args s',
+  set_parents cfg ft s c cont args = (s', Ok) -> check_parents s c cont args = None.
+Proof.
+  intros cfg ft s c cont args s' H. unfold set_parents in H.
+  destruct (check_parents s c cont args); [discriminate | reflexivity].
+Qed.
+
+Lemma set_children_ok_check : forall cfg ft s p cont args s',
+  set_children cfg ft s p cont args = (s', Ok) -> check_children s p cont args = None.
+Proof.
+  intros cfg ft s p cont args s' H. unfold set_children in H.
+  destruct (check_children s p cont args); [discriminate | reflexivity].
+Qed.
+
+Lemma parents_ok_no_reject : forall s c cont args, DWF s -> check_parents s c cont args = None ->
+  has_junk args = false /\ nodupb (ids_of args) = true /\
+  forall p, In p (ids_of args) -> closes_loop_b s p c = false.
+Proof.
+  intros s c cont args W H. unfold check_parents in H. destruct cont; try discriminate.
+  apply check_parent_loop_ok in H. destruct H as [Hj [Hnd Hall]]. split; [exact Hj|]. split; [apply nodupb_NoDup; exact Hnd|].
+  intros p Hp. destruct (Hall p Hp) as [H1 [H2 _]]. apply closes_loop_false; [exact W | exact H1 |].
+  apply ancestors_memb_false; assumption.
+Qed.
+
+Lemma children_ok_no_reject : forall s p cont args, DWF s -> check_children s p cont args = None ->
+  has_junk args = false /\ nodupb (ids_of args) = true /\
+  forall x, In x (ids_of args) -> closes_loop_b s p x = false.
+Proof.
+  intros s p cont args W H.
+  assert (H' : check_children_loop s p args [] = None).
+  { unfold check_children in H. destruct cont; try discriminate; exact H. }
+  apply check_children_loop_ok in H'. destruct H' as [Hj [Hnd Hall]]. split; [exact Hj|]. split; [apply nodupb_NoDup; exact Hnd|].
+  intros x Hx. destruct (Hall x Hx) as [H1 [H2 _]]. apply closes_loop_false; [exact W | intro; subst; apply H1; reflexivity |].
+  apply ancestors_memb_false; assumption.
+Qed.
+
+Lemma existsb_false_all : forall {A} (f : A -> bool) l, (forall x, In x l -> f x = false) -> existsb f l = false.
+Proof.
+  intros A f l H. apply not_true_is_false. intro E. apply existsb_exists in E. destruct E as [x [Hx Hf]].
+  rewrite (H x Hx) in Hf. discriminate.
+Qed.
+
+Lemma path_mono : forall s t a b, (forall q x, In q (parents s x) -> In q (parents t x)) -> path s a b -> path t a b.
+Proof.
+  intros s t a b Hm H. induction H as [a b H | a p b _ IH H].
+  - apply path1. apply Hm. exact H.
+  - eapply pathS; [exact IH | apply Hm; exact H].
+Qed.
+
+(** an accepted operation is never one that the property says has to be refused *)
+Theorem accepted_not_must_reject : forall cfg s o s', DWF s ->
+  dstep cfg s o = (s', Ok) -> must_reject_b s o = false.
+Proof.
+  intros cfg s o s' W H. unfold dstep in H. destruct (dop_in_range s o) eqn:Hr; cbn [negb] in H; [|discriminate].
+  destruct o as [c cont args ft | p cont args ft | p | p nm | p c ft | c p ft | nm pa ca ftp ftc];
+    cbn [must_reject_b]; try reflexivity.
+  - apply set_parents_ok_check in H. apply parents_ok_no_reject in H; [|exact W].
+    destruct H as [-> [-> Hall]]. cbn [negb orb]. apply existsb_false_all. exact Hall.
+  - apply set_children_ok_check in H. apply children_ok_no_reject in H; [|exact W].
+    destruct H as [-> [-> Hall]]. cbn [negb orb]. apply existsb_false_all. exact Hall.
+  - apply set_parents_ok_check in H. apply parents_ok_no_reject in H; [|exact W].
+    destruct H as [_ [_ Hall]]. apply Hall. left. reflexivity.
+  - apply set_parents_ok_check in H. apply parents_ok_no_reject in H; [|exact W].
+    destruct H as [_ [_ Hall]]. apply Hall. left. reflexivity.
+  - unfold construct in H. cbn [dop_in_range] in Hr. apply andb_true_iff in Hr. destruct Hr as [Hrp Hrc].
+    pose proof (alloc_DWF s nm W) as W1.
+    pose proof (set_parents_DWF cfg ftp (alloc s nm) (dsize s) (carg_cont pa) (carg_args pa) W1) as W2.
+    destruct (set_parents cfg ftp (alloc s nm) (dsize s) (carg_cont pa) (carg_args pa)) as [s2 o2] eqn:E1.
+    destruct o2; [|discriminate]. cbn [fst] in W2.
+    assert (W2' : DWF s2).
+    { apply W2; [cbn; lia|]. eapply range_mono; [|exact Hrp]. cbn. lia. }
+    pose proof (set_parents_effect _ _ _ _ _ _ _ E1) as Eff.
+    pose proof (set_parents_ok_check _ _ _ _ _ _ _ E1) as C1.
+    pose proof (set_children_ok_check _ _ _ _ _ _ _ H) as C2.
+    assert (J1 : has_junk (carg_args pa) = false /\ nodupb (ids_of (carg_args pa)) = true).
+    { unfold check_parents in C1. destruct (carg_cont pa); try discriminate.
+      apply check_parent_loop_ok in C1. destruct C1 as [Hj [Hnd _]]. split; [exact Hj | apply nodupb_NoDup; exact Hnd]. }
+    assert (C2' : check_children_loop s2 (dsize s) (carg_args ca) [] = None).
+    { unfold check_children in C2. destruct (carg_cont ca); try discriminate; exact C2. }
+    apply check_children_loop_ok in C2'. destruct C2' as [Hj2 [Hnd2 Hall2]].
+    destruct J1 as [-> ->]. rewrite Hj2. apply nodupb_NoDup in Hnd2. rewrite Hnd2. cbn [negb orb].
+    apply existsb_false_all. intros c Hc. apply existsb_false_all. intros p Hp.
+    destruct (Hall2 c Hc) as [Hne [Hanc _]]. apply ancestors_memb_false in Hanc; [|exact W2'].
+    assert (Hpx : path s2 p (dsize s)).
+    { apply path1. apply Eff. right. split; [reflexivity | exact Hp]. }
+    assert (Hmono : forall q x, In q (parents s x) -> In q (parents s2 x)).
+    { intros q x Hq. apply Eff. left. apply alloc_parents_In; assumption. }
+    unfold closes_loop_b. apply orb_false_iff. split.
+    + apply Nat.eqb_neq. intro; subst. apply Hanc. exact Hpx.
+    + apply not_true_is_false. intro Hre. apply reach_spec in Hre; [|exact W].
+      apply Hanc. eapply path_trans; [eapply path_mono; [exact Hmono | exact Hre] | exact Hpx].
+Qed.
+
+Lemma del_children_size : forall s p, dsize (del_children s p) = dsize s.
+Proof.
+  intros s p. unfold del_children. generalize (children s p) as l. intros l. revert s.
+  induction l as [|c t IH]; intros s; cbn [fold_left]; [reflexivity|]. rewrite IH. reflexivity.
+Qed.
+
+(** Every step of the model satisfies the C10 step predicate -- the same boolean that the
+    correspondence check evaluates on the implementation's own before/after states. *)
+Theorem dstep_prop_C10 : forall cfg s o, DWF s ->
+  prop_C10_step cfg s o (fst (dstep cfg s o)) (is_ok (snd (dstep cfg s o))) = true.
+Proof.
+  intros cfg s o W. unfold prop_C10_step.
+  pose proof (dstep_DWF cfg s o W) as W'. rewrite (DWF_dwf_b _ W'). cbn [andb].
+  destruct (dstep cfg s o) as [s' out] eqn:E. cbn [fst snd] in *. destruct out as [|e]; cbn [is_ok]; [|reflexivity].
+  rewrite (accepted_not_must_reject cfg s o s' W E), andb_false_r. cbn [negb]. rewrite andb_true_r.
+  pose proof W as [L _]. pose proof W' as [L' _].
+  destruct (is_assignment o) eqn:Ha.
+  - apply andb_true_iff. split.
+    + unfold only_adds_b. apply all_pairs_true. intros p c _ _.
+      destruct (edge_b s p c) eqn:Eb; [|reflexivity]. cbn [implb].
+      apply edge_b_iff; [exact L'|]. rewrite (assignment_effect cfg s o s' W Ha E). left. apply edge_b_iff; assumption.
+    + unfold adds_exactly_b. apply all_pairs_true. intros p c _ _. apply eqb_of_iff.
+      rewrite orb_true_iff, (edge_b_iff s' p c L'), (edge_b_iff s p c L), pair_mem_In, (requested_asks s o p c Ha).
+      apply (assignment_effect cfg s o s' W Ha E).
+  - unfold dstep in E. destruct (negb (dop_in_range s o)); [discriminate|].
+    destruct o as [c cont args ft | p cont args ft | p | p nm | p c ft | c p ft | nm pa ca ftp ftc]; try discriminate.
+    + injection E as <-. rewrite del_children_size, Nat.eqb_refl. cbn [andb delete_exact_b].
+      apply all_pairs_true. intros q c _ _. apply eqb_of_iff.
+      rewrite andb_true_iff, negb_true_iff, Nat.eqb_neq, (edge_b_iff _ q c L'), (edge_b_iff s q c L).
+      apply del_children_effect. exact W.
+    + pose proof (del_item_effect s p nm W) as D. cbn [delete_exact_b].
+      destruct (filter (fun k => str_eqb (dname s k) nm) (children s p)) as [|k [|k' t]].
+      * rewrite D in E. injection E as <-. rewrite Nat.eqb_refl. cbn [andb].
+        apply all_pairs_true. intros q c _ _. apply eqb_of_iff. tauto.
+      * destruct D as [_ [_ D]]. rewrite E in D. cbn [fst] in D.
+        assert (Hsz : dsize s' = dsize s).
+        { unfold del_item in E. destruct (filter _ _) as [|k0 [|k1 t0]]; injection E as <-; reflexivity. }
+        rewrite Hsz, Nat.eqb_refl. cbn [andb].
+        apply all_pairs_true. intros q c _ _. apply eqb_of_iff.
+        rewrite andb_true_iff, negb_true_iff, (edge_b_iff _ q c L'), (edge_b_iff s q c L), D.
+        rewrite andb_false_iff, !Nat.eqb_neq. split.
+        -- intros [H1 H2]. split; [exact H1|]. destruct (Nat.eq_dec q p) as [->|Hq]; [right | left; exact Hq].
+           intro; subst. apply H2. split; reflexivity.
+        -- intros [H1 H2]. split; [exact H1|]. intros [-> ->]. destruct H2 as [H2|H2]; apply H2; reflexivity.
+      * rewrite D in E. discriminate.
+Qed.
